@@ -10,7 +10,7 @@ SPEC = {
         "pattern-id assignment is modelled as in lib/src/compiler/mod.rs c_rule: ids in declaration order, one table de-duplicating by the full identity of a pattern; the identity is abstracted to (text, tag) and the scanner to an arbitrary function from identity and buffer to a match list",
         "rule references of r are abstracted to a verdict function of the referenced rules (the same in both compilations); the harness covers them by compiling r together with its dependencies and the global rules of its namespace",
         "WASM function chunking (10 rules / 10 namespaces per function), Teddy vs Aho-Corasick and fast-scan bits are not modelled: they are covered only differentially (0-200 extra rules, up to 24 extra namespaces, fast-scan mode in 1/5 of the cases where only verdicts are compared)",
-        "K compares the documented meaning with the run in which a first rule forces the pattern search; matches of patterns the compiler anchors (`$a at <constant>` only) are predicted at that offset only [undocumented]",
+        "K compares the documented meaning with the run in which a first rule forces the pattern search; matches of patterns the compiler anchors (`$a at <constant>` only) are predicted at that offset only, and matches are compared by K only when r's condition holds (patterns of a rule whose filesize bounds / header constraints fail are not searched) [undocumented]",
         "evaluation of conditions is Cond/Sem.v (see C02 for its assumptions)",
     ],
     "trusted_base": ["Gen/PatternIdentity.v: fields and derived equality of ir::Pattern / LiteralPattern / RegexpPattern and the use of Compiler.patterns in c_rule, regenerated from lib/src/compiler/ir/mod.rs and lib/src/compiler/mod.rs",
